@@ -174,7 +174,12 @@ struct CDynClass {
             while (done < steps) {
                 bool more = C::next(h, it, &k, &v);
                 if (more != (mi != model.end())) { out.fail("c-traversal-length", what + ": iterator_next " + (more ? "continues past the last live key" : "returned false early") + " after " + std::to_string(done) + " elements"); return; }
-                if (!more) return;
+                if (!more) {
+                    // an exhausted handle may be polled again: it keeps answering false (and touches nothing it should not)
+                    if (C::next(h, it, &k, &v)) out.fail("c-traversal-length", what + ": iterator_next returned true after it had returned false");
+                    st.inc("steps.exhausted_iterator_polled");
+                    return;
+                }
                 tr.add((uint64_t) v);
                 if (k != mi->first || v != mi->second) { out.fail("c-traversal-element", what + ": element " + std::to_string(done) + " is key " + key_text(k) + ", expected " + key_text(mi->first) + " with its current value"); return; }
                 ++mi; ++done;
